@@ -4,10 +4,13 @@
 directories inside and outside, ancestors, themselves, nothing, other links), under every follow
 mode, depth pair (including mindepth > maxdepth), -depth on/off, one or two starting points,
 against the extracted Walk model fed with an independent unfolding of the tree."""
+import os
+
 from lib import framework as fw
 from lib import fstree
 from props import walk_common as wc
 from props import known_common as kc
+from props import xargs_common as xc
 
 RULE = ("(tree, follow mode, mindepth, maxdepth, -depth, starting points) configurations on random trees (<= 30 entries, depth <= 5, 22% symbolic "
         "links of 10 kinds); non-trivial = distinct configuration whose expected visit sequence has at least 3 entries or contains a diagnosed entry")
@@ -82,6 +85,92 @@ def report(ctx, forest, bad, pid="C02"):
                        "total_disagreements": len(bad)})
 
 
+def _find(base, args, pre=()):
+    import subprocess
+    p = subprocess.run(list(pre) + [fw.FIND] + args, stdout=subprocess.PIPE, stderr=subprocess.PIPE, cwd=base, env=xc.ENV, timeout=120)
+    return p.returncode, p.stdout.split(b"\0")[:-1], p.stderr
+
+
+def _expect(ctx, kind, args, got, want, what):
+    code, out, err = got
+    wcode, wout = want
+    ctx.count((kind, tuple(args)), True, kind)
+    if (code, out) != (wcode, wout):
+        ctx.violation("find %s: visited %s, exit %d; %s: %s, exit %d" % (" ".join(args), [x.decode() for x in out], code, what, [x.decode() for x in wout], wcode),
+                      {"property": "C02", "kind": kind, "find_args": args, "visited": [x.decode() for x in out], "exit": code,
+                       "expected": [x.decode() for x in wout], "expected_exit": wcode, "stderr": err.decode("utf-8", "replace")[:300]})
+
+
+def xdev_entries(ctx, forest):
+    """-xdev/-mount must not cost an entry: a starting point that is a link which cannot be resolved (under -P it is reported like any
+    link), and - as an unprivileged user - directories whose parent may be listed but not searched (reported, then diagnosed)"""
+    base = os.path.join(forest.dir, b"xe")
+    os.makedirs(os.path.join(base, b"dir"))
+    open(os.path.join(base, b"dir", b"f"), "wb").close()
+    os.symlink(b"loop", os.path.join(base, b"loop"))
+    for args, want in ((["loop", "dir", "-xdev", "-sorted", "-print0"], (0, [b"loop", b"dir", b"dir/f"])),
+                       (["-P", "loop", "dir", "-mount", "-depth", "-sorted", "-print0"], (0, [b"loop", b"dir/f", b"dir"])),
+                       (["loop", "-xdev", "-maxdepth", "0", "-print0"], (0, [b"loop"]))):
+        _expect(ctx, "xdev-entries", args, _find(base, args), want, "every entry is reported with -xdev as without")
+    for sub in (b"t/r/sub", b"t/r/sub2"):
+        os.makedirs(os.path.join(base, sub))
+    for f in (b"t/r/f", b"t/r/sub/in", b"t/after"):
+        open(os.path.join(base, f), "wb").close()
+    pre = kc.unprivileged(base)
+    if pre is None:
+        ctx.notes.append("xdev_entries: no unprivileged user available here, the unsearchable-directory scenario was skipped")
+        return
+    kc.chown_tree(os.path.join(base, b"t"))
+    os.chmod(os.path.join(base, b"t", b"r"), 0o444)
+    try:
+        for args in (["t", "-sorted", "-xdev", "-print0"], ["t", "-sorted", "-print0"]):
+            _expect(ctx, "xdev-entries", args, _find(base, args, pre), (1, [b"t", b"t/after", b"t/r", b"t/r/f", b"t/r/sub", b"t/r/sub2"]),
+                    "directories that can be listed but not entered are reported and diagnosed")
+    finally:
+        os.chmod(os.path.join(base, b"t", b"r"), 0o755)
+
+
+def late_cycle(ctx, forest):
+    """-L: a link to a directory above the starting point leads back into it: the directory that closes the cycle is diagnosed, not
+    walked a second time - also when -maxdepth ends the walk inside the second lap"""
+    base = os.path.join(forest.dir, b"lc")
+    os.makedirs(os.path.join(base, b"top", b"r"))
+    open(os.path.join(base, b"top", b"r", b"f"), "wb").close()
+    os.symlink(b"..", os.path.join(base, b"top", b"r", b"up"))
+    for args, want in ((["-L", "top/r", "-sorted", "-print0"], (1, [b"top/r", b"top/r/f", b"top/r/up"])),
+                       (["-L", "top/r", "-sorted", "-maxdepth", "2", "-print0"], (1, [b"top/r", b"top/r/f", b"top/r/up"])),
+                       (["-L", "top/r", "-sorted", "-depth", "-print0"], (1, [b"top/r/f", b"top/r/up", b"top/r"])),
+                       (["-L", "top/r", "-sorted", "-maxdepth", "1", "-print0"], (0, [b"top/r", b"top/r/f", b"top/r/up"]))):
+        _expect(ctx, "late-cycle", args, _find(base, args), want, "no entry is evaluated twice and the cycle is diagnosed")
+
+
+def follow_unopenable(ctx, forest):
+    """known finding L-unopenable-link: under -L a link to a directory that cannot be opened is not visited (walkdir opens the target to
+    look for a loop and reports the failure without a path)"""
+    base = os.path.join(forest.dir, b"fu")
+    for sub in (b"t/locked", b"t/open"):
+        os.makedirs(os.path.join(base, sub))
+    for f in (b"t/locked/in", b"t/open/in", b"t/z"):
+        open(os.path.join(base, f), "wb").close()
+    os.symlink(b"locked", os.path.join(base, b"t", b"l"))
+    pre = kc.unprivileged(base)
+    if pre is None:
+        ctx.notes.append("follow_unopenable: no unprivileged user available here, scenario skipped")
+        return
+    kc.chown_tree(os.path.join(base, b"t"))
+    os.chmod(os.path.join(base, b"t", b"locked"), 0)
+    try:
+        args = ["-L", "t", "-sorted", "-maxdepth", "1", "-print0"]
+        code, out, err = _find(base, args, pre)
+    finally:
+        os.chmod(os.path.join(base, b"t", b"locked"), 0o755)
+    want = [b"t", b"t/l", b"t/locked", b"t/open", b"t/z"]
+    ctx.count(("L-unopenable-link",), True, "known-finding-scenarios")
+    kc._judge(ctx, "C02", "L-unopenable-link", "find -L t -maxdepth 1 as an unprivileged user, t/l -> a directory that cannot be opened: t/l is not visited, "
+              "the diagnostic names no file, exit 1 (nothing needed opening)", (code, out) == (0, want),
+              code == 1 and out == [x for x in want if x != b"t/l"] and b"Permission denied" in err, "exit %d, visited %s" % (code, [x.decode() for x in out]))
+
+
 def run(ctx):
     forest = wc.Forest("c02-")
     try:
@@ -91,6 +180,9 @@ def run(ctx):
             ctx.sample(wc.describe(forest, c))
         report(ctx, forest, bad)
         kc.path_max(ctx, "C02", forest.dir)
+        xdev_entries(ctx, forest)
+        late_cycle(ctx, forest)
+        follow_unopenable(ctx, forest)
     finally:
         forest.close()
 
